@@ -418,6 +418,18 @@ class Mp4Atom(ObjectWithFields):
             hdr = Mp4Atom.parse(src, parent, options=options)
             if hdr is None:
                 break
+            if hdr['size'] < hdr['header_size']:
+                raise ValueError(
+                    r'{}invalid size {:d} for box "{}" at position {:d}'.format(
+                        prefix, hdr['size'], hdr['atom_type'], hdr['position']))
+            if end is not None and (hdr['position'] + hdr['size']) > end:
+                msg = r'{}box "{}" at position {:d} size {:d} extends beyond its parent (end={:d})'.format(
+                    prefix, hdr['atom_type'], hdr['position'], hdr['size'], end)
+                options.log.warning(msg)
+                if options.strict:
+                    raise ValueError(msg)
+                # never read beyond the parent box
+                hdr['size'] = end - hdr['position']
             try:
                 Box = fourcc.BOXES[hdr['atom_type']]
             except KeyError:
